@@ -388,7 +388,9 @@ def known_findings(pid):
 
 def finish(ctx, level='proof', checker_cmd='', trusted=None, assumptions=None):
     """write evidence, print KNOWN-FINDING / VIOLATION lines, return exit code"""
-    os.makedirs(os.path.join(VERIF, 'evidence'), exist_ok=True)
+    # runs against a changed copy of the repository (seeded-change trials) must not touch the evidence of the real tree
+    evdir = 'evidence' if os.path.realpath(REPO) == '/repo' else os.path.join('work', 'trial_evidence')
+    os.makedirs(os.path.join(VERIF, evdir), exist_ok=True)
     os.makedirs(os.path.join(VERIF, 'replays'), exist_ok=True)
     nviol = 0
     replay_path = None
@@ -424,7 +426,7 @@ def finish(ctx, level='proof', checker_cmd='', trusted=None, assumptions=None):
     ev = {'property_id': ctx.pid, 'tier': ctx.tier, 'seed': ctx.seed, 'level': level,
           'coverage': cov, 'assumptions': assumptions or [], 'wall_s': round(ctx.elapsed(), 2),
           'violations': nviol}
-    with open(os.path.join(VERIF, 'evidence', f'{ctx.pid}.json'), 'w') as fh:
+    with open(os.path.join(VERIF, evdir, f'{ctx.pid}.json'), 'w') as fh:
         json.dump(ev, fh, indent=1, default=repr)
     for line in ctx.known_lines:
         print(f"KNOWN-FINDING: property={ctx.pid} {line}")
